@@ -50,6 +50,9 @@ func spaceDeepTable(ctx *bex.Ctx)  { explore(ctx, famDeepTable) }  // (c) deep n
 func spacePadded(ctx *bex.Ctx)     { explore(ctx, famPadded) }     // (c) padded valid programs
 func spaceBytes6(ctx *bex.Ctx)     { explore(ctx, famBytes6) }     // (a) thorough: 6 symbols, reduced alphabet
 
+func spaceUnicode(ctx *bex.Ctx) { explore(ctx, famUnicode) } // (d) Unicode classes
+func spaceFolds(ctx *bex.Ctx)   { explore(ctx, famFolds) }   // (e) failing constant folds
+
 func run(ctx *bex.Ctx) {
 	if runAsChild(ctx) { // a child process executes the index range named in its environment
 		return
@@ -65,6 +68,8 @@ func run(ctx *bex.Ctx) {
 		spaceTokensEdge,
 		spaceRepeat,
 		spaceDeepTable,
+		spaceUnicode,
+		spaceFolds,
 		spaceBytes,
 		spaceTokens,
 		spacePadded,
